@@ -4,4 +4,6 @@ func runBounded(name, repo, verifDir, prop string, thorough bool, seed int) (map
 	return map[string]interface{}{"name": name, "status": "not implemented"}, nil
 }
 
+var _ = runBounded
+
 func runOracle(name, repo, verifDir, prop string) (string, bool) { return "no oracle", false }
